@@ -21,6 +21,11 @@ _COMMON = ["-O0", "-DTETL_ENABLE_CONTRACT_CHECKS=1"]
 HARNESSES = [
     {"name": "main", "src": "harness.cpp", "compiler": _PCXX,
      "flags": _COMMON + ["-DC19_TIER='q'", "-DC19_TABLEBASE=inst_quick", "-DC19_NPARTS=%d" % gt.NPARTS["inst_quick"]]},
+    # the same harness, a small table, built with -fsanitize=signed-integer-overflow and trap-on-error: a trap
+    # (SIGILL) inside a case is caught and reported as the impl outcome `ub` (tier letter u)
+    {"name": "ub", "src": "harness.cpp", "compiler": _PCXX,
+     "flags": _COMMON + ["-DC19_TIER='u'", "-DC19_TABLEBASE=inst_ub", "-DC19_NPARTS=%d" % gt.NPARTS["inst_ub"],
+                         "-DC19_UBTRAP=1", "-fsanitize=signed-integer-overflow", "-fsanitize-undefined-trap-on-error"]},
     {"name": "wide", "src": "harness.cpp", "compiler": _PCXX, "thorough_only": True,
      "flags": _COMMON + ["-DC19_TIER='t'", "-DC19_TABLEBASE=inst_thorough",
                          "-DC19_NPARTS=%d" % gt.NPARTS["inst_thorough"]]},
@@ -31,7 +36,7 @@ RULE = ("every extents instantiation of the generated table (quick: index types 
         "every assignment 0..3 (0..4) of the dynamic extents: all three constructor routes, default/all-extents/"
         "converting constructors, fwd/rev products, layout_left/right/stride mappings on ALL multi-indices of the "
         "shape (offsets, strides, required_span_size), mdspan/mdarray element addresses, layout_transpose, "
-        "submdspan_extents with every full/index slice choice, stride(r) contract, wrap-around cases with huge "
+        "submdspan_extents with every full/index/(first,last) slice choice, operator== of extents and mappings across index types, stride(r) contract, wrap-around cases with huge "
         "extents for the unsigned and narrow index types; span: every (Extent, Offset, Count) static form and every "
         "(offset, count) dynamic form for lengths 0..6 incl. contract violations. "
         "non-trivial = distinct case line whose impl outcome is ok or contract")
@@ -39,7 +44,8 @@ TRUSTED_BASE = ["reference leg: closed-form row-/column-major/strided formulas e
                 "harness; std::span (libstdc++ 12) for the span operations",
                 "props/C19/pcxx.py (parallel compile wrapper around g++)"]
 ASSUMPTIONS = ["LP64: size_t is 64 bits, int is 32 bits, two's complement, modular narrowing conversions (C++20)",
-               "signed-overflow cases of operator() (model outcome ub) are excluded from the generated inputs"]
+               "signed-overflow cases of operator() (model outcome ub) are excluded from the inputs of the plain builds and "
+               "run against a build with -fsanitize=signed-integer-overflow (trap = impl outcome ub)"]
 
 D = -1
 BITS = gt.BITS
@@ -211,7 +217,41 @@ def ext_cases(out, tier, ity, p, rng, vmax, heavy):
         xs = fill(p, vv)
         st = [rng.choice([1, 7, 100, 255, mx, (1 << 33) + 5, mx + 2]) for _ in range(r)]
         idx = [rng.choice([0, 1, 2, 100, 255, mx]) for _ in range(r)]
-        out.append("%s %s %s %s" % (pre("strided_at"), lstw(ity, vv), lstw(ity, st), lstw(ity, idx)))
+        # (uint16 * uint16 is int arithmetic and CAN overflow: 65535 * 65535 -- such inputs go to the `ub` harness)
+        if arith_safe(ity, xs, idx, strides=st):
+            out.append("%s %s %s %s" % (pre("strided_at"), lstw(ity, vv), lstw(ity, st), lstw(ity, idx)))
+
+
+def ub_cases(out, rng):
+    """inputs aimed at signed overflow of operator() in the promoted type (tier letter u: only the harness built
+    with -fsanitize=signed-integer-overflow answers).  No filter: the model decides (`ub` or a wrapped value) and
+    the instrumented code must agree."""
+    ut = gt.ub_table()
+    for ity, x, s_, i_ in ut.cep1:
+        out.append("ce_probe u P %s %d %d %d ;" % (ity, x, s_, i_))
+    for ity, x0, x1, i0, i1 in ut.cep2:
+        out.append("ce_probe u Q %s %d %d %d %d ;" % (ity, x0, x1, i0, i1))
+    for ity, p in ut.ext:
+        k = key("E", ity, p)
+        r, nd = len(p), ndyn(p)
+        if r == 0:
+            continue
+        mx = imax(ity)
+        pre = lambda op: "%s u %s ;" % (op, k)  # noqa: E731
+        b, sg = BITS[ity]
+        big = [mx, mx - 1, (mx + 1) // 2, 1 << (b // 2), (1 << (b // 2)) + 1, 3, 2, 255, 256, 65535, 65536, 46341, 46340,
+               1 << 31, (1 << 31) - 1, 3037000500, 1 << 32]
+        for _ in range(24):
+            vv = [rng.choice(big) for _ in range(nd)]
+            xs = fill(p, vv)
+            idx = [rng.choice([0, 1, 2, max(0, wrap(ity, x) - 1), wrap(ity, x) // 2 if wrap(ity, x) > 0 else 0,
+                               rng.choice(big)]) for x in xs]
+            out.append("%s %s %s %s" % (pre("map_at"), rng.choice("LR"), lstw(ity, vv), lstw(ity, idx)))
+            st = [rng.choice(big + [1, 1, 7]) for _ in range(r)]
+            out.append("%s %s %s %s" % (pre("strided_at"), lstw(ity, vv), lstw(ity, st), lstw(ity, idx)))
+        # the classic: uint16 * uint16 overflows int
+        out.append("%s %s %s %s" % (pre("strided_at"), lstw(ity, [mx] * nd), lstw(ity, [mx] * r), lstw(ity, [mx] * r)))
+        out.append("%s %s %s %s" % (pre("strided_at"), lstw(ity, [3] * nd), lstw(ity, [1] * r), lstw(ity, [1] * r)))
 
 
 def gen(tier, rng):
@@ -249,6 +289,25 @@ def gen(tier, rng):
                            for _ in range(nd)))
         for v in sorted(vals):
             out.append("ext_conv q %s ; %s" % (k, lstw(i1, v)))
+        # operator==: equal and unequal value assignments, values that differ only outside the narrower type
+        nd2 = ndyn(p2)
+        for _ in range(4):
+            full1 = [(p2[j] if (p2[j] != D and rng.random() < 0.7) else rng.choice([0, 1, 2, 3, 5, 100]))
+                     for j in range(len(p1))]
+            xs1 = [p1[j] if p1[j] != D else full1[j] for j in range(len(p1))]
+            v1 = [xs1[j] for j in range(len(p1)) if p1[j] == D]
+            w_eq = [xs1[j] for j in range(len(p2)) if p2[j] == D]
+            out.append("ext_eq q %s ; %s %s" % (k, lstw(i1, v1), lstw(i2, w_eq)))
+            if nd2 > 0:
+                w_ne = list(w_eq)
+                j = rng.randrange(nd2)
+                w_ne[j] = w_ne[j] + rng.choice([1, 2, 256, 1 << 32])
+                out.append("ext_eq q %s ; %s %s" % (k, lstw(i1, v1), lstw(i2, w_ne)))
+            if nd > 0:
+                v_ne = list(v1)
+                j = rng.randrange(nd)
+                v_ne[j] = v_ne[j] + rng.choice([1, 3, 256, 1 << 32])
+                out.append("ext_eq q %s ; %s %s" % (k, lstw(i1, v_ne), lstw(i2, w_eq)))
         v = sorted(vals)[0]
         kinds = ["LL", "RR", "MD"] + (["LR", "RL"] if len(p1) <= 1 else [])
         for kind in kinds:
@@ -270,6 +329,9 @@ def gen(tier, rng):
     for ity, p, sl in q.sub:
         k = "S %s %s %s" % (ity, gt.patkey(p), sl)
         nd = ndyn(p)
+        if "P" in sl:
+            pair_cases(out, k, p, sl, rng)
+            continue
         combos = list(itertools.product(range(0, 4), repeat=nd))
         for v in combos:
             xs = fill(p, v)
@@ -281,12 +343,43 @@ def gen(tier, rng):
         out.append("subext q %s ; %s %s" % (k, lst([5 + j for j in range(nd)]), lst([1 for _ in xs])))
     # span
     span_cases(out, q, rng)
+    # signed overflow in operator(): model outcome `ub` against the trap of the instrumented build
+    ub_cases(out, rng)
     if not quick:
         t = gt.thorough_table()
         for ity, p in t.ext:
             ext_cases(out, "t", ity, p, rng, 4 if (len(p) == 4 or 4 in p) else 3, heavy=len(p) < 4)
         transp("t", t.transp)
     return out
+
+
+def pair_cases(out, k, p, sl, rng):
+    """submdspan_extents with at least one (first, last) slice: tokens <dynamic extents> <first/index per
+    dimension> <last per dimension>"""
+    nd = ndyn(p)
+    pre = "subextp q %s ;" % k
+    combos = list(itertools.product(range(0, 5), repeat=nd))
+    if len(combos) > 16:
+        combos = [combos[0], combos[-1]] + rng.sample(combos, 10)
+    for v in combos:
+        xs = fill(p, v)
+        picks = []
+        # boundary choices: the whole dimension, the empty range at both ends; then random valid ranges
+        picks.append(([0] * len(xs), list(xs)))
+        picks.append((list(xs), list(xs)))
+        picks.append(([0] * len(xs), [0] * len(xs)))
+        for _ in range(3):
+            fs = [rng.randrange(0, x + 1) for x in xs]
+            picks.append((fs, [rng.randrange(f, x + 1) for f, x in zip(fs, xs)]))
+        for fs, ls in picks:
+            ks = [(f if c == "P" else (rng.randrange(0, x) if x > 0 else 0)) for f, x, c in zip(fs, xs, sl)]
+            out.append("%s %s %s %s" % (pre, lst(v), lst(ks), lst(ls)))
+    # outside the standard's domain: last > extent, first > last, large values
+    v = [rng.randrange(0, 5) for _ in range(nd)]
+    xs = fill(p, v)
+    out.append("%s %s %s %s" % (pre, lst(v), lst([0] * len(xs)), lst([x + 1 for x in xs])))
+    out.append("%s %s %s %s" % (pre, lst(v), lst([x for x in xs]), lst([0] * len(xs))))
+    out.append("%s %s %s %s" % (pre, lst(v), lst([1] * len(xs)), lst([100 + x for x in xs])))
 
 
 def span_cases(out, q, rng):
